@@ -2,7 +2,7 @@ import PlinioVerif.Model.Proto
 import PlinioVerif.Model.Train
 /-! Line driver for the C11 correspondence.
 
-request  `trace method=<pit|mps|sn> ts=[..] layers=[..] qs=[..] ops=[..]`
+request  `trace method=<pit|mps|sn> [detach=<0|1>] ts=[..] layers=[..] qs=[..] ops=[..]`
   ts      one token per tensor, in index order: `a0|a1` features mask (1 = of a Frozen masker),
           `b0|b1` time-step mask, `g0|g1` dilation mask, `w` network parameter,
           `q<n>@<j>` coefficients of quantizer `j` (n alternatives), `x@<j>` other parameter of
@@ -109,7 +109,9 @@ def handle (line : String) : String :=
             (field? toks "qs").bind (parseList? (parseQtz? m)),
             (field? toks "ops").bind (parseList? parseOp?) with
       | some ts, some layers, some qs, some ops =>
-        let s0 : State := { method := m, ts := ts, layers := layers, qs := qs }
+        -- `detach=0` selects the tree before `sample_alpha_none` detached the coefficients it keeps
+        let detach := ((field? toks "detach").bind parseBool?).getD true
+        let s0 : State := { method := m, ts := ts, layers := layers, qs := qs, detachOnNone := detach }
         let (_, obs) := ops.foldl (fun (acc : State × Array String) op =>
             let s := acc.1
             let g := match op with
